@@ -71,6 +71,11 @@ pub fn build(rec: &Value) -> Built {
     if cfg["ruleconv"] == "disabled" {
         yaml.push_str("rewrite:\n  - matcher:\n      payee: \".*\"\n    conversion:\n      disabled: true\n");
     }
+    if cfg["ruleconv"] == "commodity" {
+        // the rule restates the conversion and names the secondary commodity; the statement's column shows the bank's own code
+        yaml.push_str(&format!("rewrite:\n  - matcher:\n      payee: \".*\"\n    conversion:\n      commodity: JPY\n      amount: {}\n      rate: {}\n",
+            if conv.starts_with("extract") { "extract" } else { "compute" }, if conv.ends_with("pop") { "price_of_primary" } else { "price_of_secondary" }));
+    }
     let mut csv = String::new();
     for i in 0..skip { csv.push_str(&format!("Account statement line {}\n", i + 1)); }
     csv.push_str(&cols.iter().map(|(l, _)| cell(l, delim)).collect::<Vec<_>>().join(&delim.to_string()));
